@@ -211,7 +211,7 @@ def _process(unit, tpath, repo):
             continue
         if s.startswith("//@canary_false"):
             first = len(unit.out_lines) + 1
-            name = "canary_false_%d" % (len(unit.canaries) + 1)
+            name = "cnry_false_%d" % (len(unit.canaries) + 1)
             unit.emit("proof fn %s() ensures false {}" % name, {"kind": "gen", "file": "<deliberately false: the verifier must report it>", "line": 0})
             unit.canaries.append({"name": name, "for": "<verifier liveness>", "out_first": first, "out_last": len(unit.out_lines)})
             i += 1
@@ -382,6 +382,7 @@ def _emit_body(unit, fnrec, dirs):
         off, text, tl = inserts[k]
         body = body[:off] + text.replace("\n", " ") + body[off:]
     fnrec["overlay_inserts"] = len(inserts)
+    fnrec["body_out_first"] = len(unit.out_lines) + 1
     unit.emit(body, {"kind": "src", "file": fnrec["file"], "line0": _line_of(src, it.body_open), "fn": fnrec["qual"]})
 
 
@@ -433,7 +434,7 @@ def _emit_canary(unit, fnrec):
     req = re.sub(r"\bold\(\s*self\s*\)", "self_", req)
     req = re.sub(r"\bold\(\s*(\w+)\s*\)", r"\1", req)
     req = re.sub(r"\bself\b", "self_", req)
-    name = "canary_%s_%d" % (fnrec["name"], len(unit.canaries) + 1)
+    name = "cnry_%d" % (len(unit.canaries) + 1)
     text = "proof fn %s%s(%s) requires %s ensures false {}" % (name, generics, ", ".join(ps), " ".join(req.split()).rstrip(", ") + ",")
     first = len(unit.out_lines) + 1
     unit.emit(text, {"kind": "gen", "file": "<canary for %s>" % fnrec["qual"], "line": 0})
@@ -460,7 +461,7 @@ def _split_params(params):
 
 def collect_clauses(unit):
     """Tagged contract clauses `/*@C01,C07 #label*/ ...` inside function / lemma regions."""
-    tag_re = re.compile(r"/\*@\s*([C0-9, ]+?)\s*(?:#(\w+))?\s*\*/")
+    tag_re = re.compile(r"/\*@\s*([C0-9, ]+?)\s*(?:#(\w+))?\s*(?:unless=(\w+))?\s*\*/")
     regions = unit.fns + unit.lemmas
     for idx, ln in enumerate(unit.out_lines):
         for m in tag_re.finditer(ln):
@@ -471,7 +472,7 @@ def collect_clauses(unit):
                     fn = f
                     break
             unit.clauses.append({"fn": fn["qual"] if fn else None, "tags": [t.strip() for t in m.group(1).split(",") if t.strip()],
-                                 "label": m.group(2), "out_line": line})
+                                 "label": m.group(2), "unless": m.group(3), "out_line": line})
 
 
 def write_unit(unit, outdir):
